@@ -13,7 +13,7 @@ def wanted_replay(clause):
 
 
 def wanted_trace(clause, trace, call):
-    return clause.startswith("contract.") or clause.startswith("first.")
+    return clause.startswith("contract.") or clause.startswith("first.") or clause.startswith("manual.")
 
 
 def run(tier, seed):
